@@ -236,6 +236,10 @@ package agent
 //@   requires nonnil: a != nil
 //@   requires names: wfSessions()
 //@   modifies a.Tasks, allof(Agent.JobQueue), allelems(Job)
+// C04/C05: whichever way the job travels (own queue or wrapped for the pivot chain), its request id is
+// already outstanding when it is handed on, so the answer can never arrive before the id is known
+//@   guard-call recpivot: "PivotAddJob" exists(i, 0, len(a.Tasks), a.Tasks[i].RequestID == job.RequestID)
+//@   guard-store recown: "Agent[.]JobQueue" exists(i, 0, len(a.Tasks), a.Tasks[i].RequestID == job.RequestID)
 
 // Frame of the pivot path (C08 gives the functional clause): it appends to this
 // agent's display queue and to the first hop's queue.
